@@ -362,6 +362,14 @@ func init() {
 		}
 		return setRecv(e, a[0], IntC(new(big.Int).Exp(x.C, y.C, m)))
 	}
+	I[B+"Rsh"] = func(e *Exec, fn *ssa.Function, a []Value) Value {
+		n := e.concreteInt(a[2], "big.Int.Rsh count")
+		return setRecv(e, a[0], IDiv(bigOf(a[1]).T, IntC(new(big.Int).Lsh(bigOne, uint(n)))))
+	}
+	I[B+"Lsh"] = func(e *Exec, fn *ssa.Function, a []Value) Value {
+		n := e.concreteInt(a[2], "big.Int.Lsh count")
+		return setRecv(e, a[0], IMul(bigOf(a[1]).T, IntC(new(big.Int).Lsh(bigOne, uint(n)))))
+	}
 	I[B+"Neg"] = func(e *Exec, fn *ssa.Function, a []Value) Value { return setRecv(e, a[0], INeg(bigOf(a[1]).T)) }
 	I[B+"Abs"] = func(e *Exec, fn *ssa.Function, a []Value) Value { return setRecv(e, a[0], iAbs(bigOf(a[1]).T)) }
 	I[B+"Cmp"] = func(e *Exec, fn *ssa.Function, a []Value) Value {
